@@ -104,6 +104,47 @@ def run_job(job):
         if tuple(b) != (ks[0], ks[-1]):
             bad({"class": "placement", "side": "bounds"}, "get_bounds -> %s expected %s" % (b, (ks[0], ks[-1])))
         part["evaluations"] += len(ks) + 2
+        # ---- the same channel described by each older layout of dmd_properties.h5 the reader still accepts
+        #      (renamed rate attributes; renamed cadence attributes; a floating-point rate only - for rates the
+        #      reader's rationalisation of that float recovers exactly): placement must not depend on the layout
+        import fractions
+
+        r.close() if hasattr(r, "close") else None
+        props = os.path.join(mdir, "dmd_properties.h5")
+        forms = ["renamed_rate", "renamed_cadence"]
+        if fractions.Fraction(float(np.float64(n) / np.float64(d))).limit_denominator() == fractions.Fraction(n, d):
+            forms.append("float_rate_only")
+        for form in forms:
+            with h5py.File(props, "a") as f:
+                a = f.attrs
+                if form == "renamed_rate":
+                    a["samples_per_second_numerator"] = a["sample_rate_numerator"]
+                    a["samples_per_second_denominator"] = a["sample_rate_denominator"]
+                    del a["sample_rate_numerator"], a["sample_rate_denominator"]
+                elif form == "renamed_cadence":
+                    a["subdirectory_cadence_seconds"] = a["subdir_cadence_secs"]
+                    a["file_cadence_seconds"] = a["file_cadence_secs"]
+                    del a["subdir_cadence_secs"], a["file_cadence_secs"]
+                else:
+                    del a["samples_per_second_numerator"], a["samples_per_second_denominator"]
+                    if "digital_metadata_version" in a:
+                        del a["digital_metadata_version"]
+                    a["samples_per_second"] = np.float64(n) / np.float64(d)
+            try:
+                r2 = drf.DigitalMetadataReader(mdir)
+                for k in ks[::3] + ks[-1:]:
+                    got = [int(x) for x in r2.read(k, k)]
+                    part["evaluations"] += 1
+                    if got != [k]:
+                        bad({"class": "placement", "side": "reader_older_properties_layout", "layout": form},
+                            "properties in the %s layout: read(%d,%d) (n=%d,d=%d,fc=%d) -> %s" % (form, k, k, n, d, fc, got), k=k)
+                        break
+                b2 = tuple(r2.get_bounds())
+                if b2 != (ks[0], ks[-1]):
+                    bad({"class": "placement", "side": "bounds_older_properties_layout", "layout": form}, "get_bounds -> %s expected %s" % (b2, (ks[0], ks[-1])))
+            except Exception as e:  # noqa: BLE001
+                bad({"class": "older_properties_layout_rejected", "layout": form, "exc": type(e).__name__}, "%s layout: %r" % (form, e))
+            part["outcomes"]["older_layout:" + form] += 1
         part["nontrivial"].update(core.canon((n, d, fc, f)) for f in files)
         part["states"].update(core.canon((n, d, fc, f)) for f in files)
         part["outcomes"]["files=%d" % (len(files) // 16 * 16)] += 1
